@@ -66,6 +66,12 @@ func init() {
 			dst = src
 		} else {
 			dst = make([]byte, len(src))
+			if c.has("dstlen") { // a destination longer than one block: only the first block may be written
+				dst = make([]byte, c.num("dstlen"))
+			}
+			for i := range dst {
+				dst[i] = 0xA5
+			}
 		}
 		defer func() {
 			ev["out"] = B(dst)
